@@ -66,12 +66,22 @@ int _skinny_has_vec256(void)
     int detected = 0;
 #if SKINNY_VEC256_MATH
 #if SKINNY_X86_CPUID && defined(__AVX2__)
-    /* 256-bit SIMD vectors are available on x86 if we have AVX2 */
+    /* 256-bit SIMD vectors are available on x86 if we have AVX2 and the
+       operating system preserves the YMM registers across context switches */
     uint32_t eax = 0;
     uint32_t ebx = 0;
     uint32_t ecx = 0;
     uint32_t edx = 0;
-    __cpuid(7, eax, ebx, ecx, edx);
+    __cpuid(0, eax, ebx, ecx, edx);
+    if (eax < 7)
+        return 0;   /* Leaf 7 does not exist on this CPU */
+    __cpuid(1, eax, ebx, ecx, edx);
+    if ((ecx & (1 << 27)) == 0)
+        return 0;   /* No OSXSAVE, so XGETBV cannot be used */
+    __asm__ __volatile__ ("xgetbv" : "=a"(eax), "=d"(edx) : "c"(0));
+    if ((eax & 0x06) != 0x06)
+        return 0;   /* XMM and YMM state are not enabled in XCR0 */
+    __cpuid_count(7, 0, eax, ebx, ecx, edx);
     detected = (ebx & (1 << 5)) != 0;
 #endif
 #endif
